@@ -9,6 +9,7 @@ CONSTANTS
   IdsIdentifyContent = TRUE
   IncOf <- MCIncOf
   KeepHigherIncarnation = FALSE
+  ReuseUnattested = FALSE
   StateEarly = TRUE
   InitScenarios = {"fresh"}
   InitDocs <- DocsSmall
